@@ -8,3 +8,4 @@ CONSTANTS
 SPECIFICATION Spec
 INVARIANT TypeOK
 INVARIANT CacheCoherent
+INVARIANT OfferedNowCompatible
